@@ -113,6 +113,24 @@ pub fn check_text(ctx: &mut Ctx, t: &str, must_accept: Option<&Pos>) -> Result<(
     if let Err(e) = guarded(|| BoardBuilder::from_str(t).map(|b| b.to_string())) {
         ctx.fail("parse:panic", format!("BoardBuilder::from_str({:?}) panicked: {}", t, e), case())?;
     }
+    // the deprecated wrappers are conversions of text into a position too
+    #[allow(deprecated)]
+    {
+        match guarded(|| Board::from_fen(t.to_string())) {
+            Err(e) => ctx.fail("parse:panic", format!("Board::from_fen({:?}) panicked: {}", t, e), case())?,
+            Ok(Some(fb)) => check_accepted(ctx, &fb, &case)?,
+            Ok(None) => {
+                if let Some(p) = must_accept {
+                    ctx.fail("accept:valid-position-rejected", format!("Board::from_fen rejects the valid position {:?}", p.fen()), case())?;
+                }
+            }
+        }
+        match guarded(|| Game::new_from_fen(t).map(|g| g.current_position())) {
+            Err(e) => ctx.fail("parse:panic", format!("Game::new_from_fen({:?}) panicked: {}", t, e), case())?,
+            Ok(Some(gb)) => check_accepted(ctx, &gb, &case)?,
+            Ok(None) => {}
+        }
+    }
     match guarded(|| Game::from_str(t).map(|g| g.current_position())) {
         Err(e) => ctx.fail("parse:panic", format!("Game::from_str({:?}) panicked: {}", t, e), case())?,
         Ok(Ok(gb)) => {
